@@ -1,9 +1,11 @@
 (* Properties_C13.v — C13: PANOC-OCP `Converged` certifies input-constrained stationarity of the OCP.
    Only theorem statements closed by `exact`, each followed by Print Assumptions, plus non-vacuity examples.
    The exit-status function `stop_status_ocp` is GENERATED from panoc-ocp.tpp on every run (gen/StopChain.v). *)
+From Coquelicot Require Import Coquelicot.
 From Coq Require Import Reals List ZArith Lra Lia Bool.
+From Flocq Require Import Raux.
 From Alpaqa Require Import Num NumR Vec Prox ProxProofs ProxVec SolverStatus SolverKernels SolverKernelsProofs
-                           StopChain StopChainProofs Ocp OcpProofs PanocOcp PanocOcpProofs.
+                           StopChain StopChainProofs Ocp OcpProofs PanocOcp PanocOcpProofs PanocOcpLoop PanocOcpLoopProofs PanocOcpE2E PanocOcpE2EDeriv.
 Import ListNotations.
 Local Open Scope R_scope.
 
@@ -118,4 +120,205 @@ Proof.
   - unfold proj_grad_step, tile. cbn. unfold proj_step1, clamp_lo, clamp_hi, osub. numR. rbool; repeat f_equal; lra.
   - reflexivity.
   - apply ocp_converged_iff. rewrite ocp_eff_tol_pos; lra.
+Qed.
+
+(* ================================================================== C13 ∘ C12: the whole solver loop on C12's verified OCP evaluator
+   PanocOcpLoop.panoc_ocp (= PANOCOCPSolver::operator(), whole-run correspondence Corr_PANOCOCP) with its forward / backward sweep
+   oracles INSTANTIATED by Ocp.forward / Ocp.backward (PanocOcpE2E.e_fwd / e_bwd) for an OCP given by its functions: dynamics f, outputs
+   h / h_N, stage / terminal costs l / l_N on the outputs, constraints c / c_N, and the derivative functions the code calls — Jacobians
+   jA, jB of f, jc, jcN of the constraints (the code's products eval_grad_f_prod / eval_grad_constr_prod(_N) are the transposed products
+   with them: C12's wf_bwd), gqr = eval_qr, gqN = eval_q_N.  The Gauss-Newton and L-BFGS blocks stay arbitrary oracles (any direction):
+   the statement holds with GN steps always, periodically or never.
+
+   If the run returns Converged then, with u_k / γ_k / g the inputs, step size and gradient of the iterate at the final stop check:
+     - g is the gradient of the OCP cost V (sum of stage costs, terminal cost and ½·μ-weighted squared distances of the shifted
+       constraints, C12_forward_is_sum) at u_k in the form C12 proves it (is_cost_gradient = C12_backward_gradient_is_derivative: blocks
+       of nu entries whose pairing with EVERY perturbation δu is the first-order change Σ(q_k·δx_k + r_k·δu_k) + q_N·δx_N of the cost along
+       the linearised roll-out, with A_k, B_k, q_k, r_k, q_N evaluated ALONG THE TRAJECTORY of u_k; the chain rule — that these are the
+       derivatives of f, l∘h, ½dist² — is assumed exactly as in C12), and ψ(u_k) = V(u_k);
+     - the returned inputs are Π_U(u_k − γ_k g) component by component: they lie in the input box U at every stage;
+     - the documented residual of the selected (supported) criterion ‖u_k − Π_U(u_k − γ g)‖ (γ = γ_k, or 1 for the unit-step criteria, the
+       FPR criteria divided by γ_k; ∞- or 2-norm) is <= the effective tolerance;
+     - y, err_z written back are, row by row over D tiled N times followed by D_N:  err_z = c − Π_D(c + y/μ),  y_out = y + μ·err_z  with
+       c the constraint values along the trajectory of the RETURNED inputs.
+   Hypotheses: sizes of what the problem functions return (C12's wf_fwd / shape part of wf_bwd), sizes of x0, U, u, D, D_N, y, μ;
+   U non-empty; μ > 0; Lγ_factor > 0, L_min > 0, L_max > 0; the direction oracles return N·nu-vectors. *)
+Theorem C13_panoc_ocp_converged_is_stationary :
+  forall (f h : nat -> list R -> list R -> list R) (hN : list R -> list R) (l : nat -> list R -> R) (lN : list R -> R)
+         (c : nat -> list R -> list R) (cN : list R -> list R)
+         (jA jB : nat -> list R -> list R -> list (list R)) (gqr : nat -> list R -> list R -> list R) (gqN : list R -> list R -> list R)
+         (jc : nat -> list R -> list (list R)) (jcN : list R -> list (list R))
+         (d : dims) (Dlb Dub DNlb DNub : list (option R)) (x0 y μ : list R)
+         (DS : Type) (gn_step : nat -> list R -> list R -> e_QR (T:=R) -> list bool -> list R -> list R)
+         (lb_apply : DS -> list R -> R -> list nat -> bool * list R * DS)
+         (lb_update : DS -> list R -> list R -> list R -> list R -> bool * DS) (lb_reset : DS -> DS)
+         (Ulb Uub : list (option R)) (stop_req time_up : counters -> bool) (P : params (T:=R)) (u_in errz_in : list R) (ds0 : DS)
+         (ls_fuel fuel : nat) (o : outputs (T:=R) (list R)),
+  wf_fns f h hN c cN d -> wf_jac jA jB gqr gqN jc jcN d -> length x0 = dnx d ->
+  length Ulb = dnu d -> length Uub = dnu d -> Forall2 box_ne Ulb Uub ->
+  length u_in = (dN d * dnu d)%nat ->
+  length Dlb = dnc d -> length Dub = dnc d -> length DNlb = dncN d -> length DNub = dncN d ->
+  length y = (dN d * dnc d + dncN d)%nat -> length μ = (dN d * dnc d + dncN d)%nat -> Forall (fun m => 0 < m) μ ->
+  0 < p_Lgamma P -> 0 < p_Lmin P -> 0 < p_Lmax P ->
+  (forall j u x qr mask q, length (gn_step j u x qr mask q) = (dN d * dnu d)%nat) ->
+  (forall ds q γ J, length (snd (fst (lb_apply ds q γ J))) = (dN d * dnu d)%nat) ->
+  e2e_run f h hN l lN c cN jA jB gqr gqN jc jcN d Dlb Dub DNlb DNub x0 y μ DS gn_step lb_apply lb_update lb_reset
+          Ulb Uub stop_req time_up P u_in errz_in ds0 ls_fuel fuel = Done o ->
+  out_status o = StConverged ->
+  let uk := iu (out_final o) in let γk := igam (out_final o) in let g := igrad (out_final o) in
+  let N := dN d in let Dl := tile N Dlb ++ DNlb in let Du := tile N Dub ++ DNub in
+  0 < γk /\ length uk = (N * dnu d)%nat /\
+  is_cost_gradient f h hN c cN jA jB gqr gqN jc jcN d Dlb Dub DNlb DNub x0 y μ uk g /\
+  ipsi (out_final o) = e_V f h hN l lN c cN d Dlb Dub DNlb DNub x0 y μ uk /\
+  length (out_u o) = (N * dnu d)%nat /\
+  (forall j, (j < N * dnu d)%nat ->
+     in_box (nth j (tile N Ulb) None) (nth j (tile N Uub) None) (nth j (out_u o) 0) /\
+     nth j (out_u o) 0 = Prox.proj1 (nth j (tile N Ulb) None) (nth j (tile N Uub) None) (nth j uk 0 - γk * nth j g 0)) /\
+  crit_doc (p_crit P) (tile N Ulb) (tile N Uub) γk uk (out_u o) [] g [] <= eff_tol (o_tol P) /\
+  supported (p_crit P) = true /\
+  (let cs := e_constr f c cN d x0 (out_u o) in
+   let rows := ocp_write Dl Du cs y μ in
+   out_y o = map fst rows /\ out_errz o = map snd rows /\ length cs = (N * dnc d + dncN d)%nat /\
+   forall i, (i < N * dnc d + dncN d)%nat ->
+     nth i (out_errz o) 0 = nth i cs 0 - Prox.proj1 (nth i Dl None) (nth i Du None) (nth i cs 0 + nth i y 0 / nth i μ 0) /\
+     nth i (out_y o) 0 = nth i y 0 + nth i μ 0 * nth i (out_errz o) 0).
+Proof. exact panoc_ocp_converged_is_stationary. Qed.
+Print Assumptions C13_panoc_ocp_converged_is_stationary.
+
+(* ... the box part stage by stage: input i of stage t of the returned sequence lies between U.lowerbound_i and U.upperbound_i *)
+Theorem C13_panoc_ocp_converged_inputs_in_U :
+  forall (f h : nat -> list R -> list R -> list R) (hN : list R -> list R) (l : nat -> list R -> R) (lN : list R -> R)
+         (c : nat -> list R -> list R) (cN : list R -> list R)
+         (jA jB : nat -> list R -> list R -> list (list R)) (gqr : nat -> list R -> list R -> list R) (gqN : list R -> list R -> list R)
+         (jc : nat -> list R -> list (list R)) (jcN : list R -> list (list R))
+         (d : dims) (Dlb Dub DNlb DNub : list (option R)) (x0 y μ : list R)
+         (DS : Type) (gn_step : nat -> list R -> list R -> e_QR (T:=R) -> list bool -> list R -> list R)
+         (lb_apply : DS -> list R -> R -> list nat -> bool * list R * DS)
+         (lb_update : DS -> list R -> list R -> list R -> list R -> bool * DS) (lb_reset : DS -> DS)
+         (Ulb Uub : list (option R)) (stop_req time_up : counters -> bool) (P : params (T:=R)) (u_in errz_in : list R) (ds0 : DS)
+         (ls_fuel fuel : nat) (o : outputs (T:=R) (list R)),
+  wf_fns f h hN c cN d -> wf_jac jA jB gqr gqN jc jcN d -> length x0 = dnx d ->
+  length Ulb = dnu d -> length Uub = dnu d -> Forall2 box_ne Ulb Uub ->
+  length u_in = (dN d * dnu d)%nat ->
+  length Dlb = dnc d -> length Dub = dnc d -> length DNlb = dncN d -> length DNub = dncN d ->
+  length y = (dN d * dnc d + dncN d)%nat -> length μ = (dN d * dnc d + dncN d)%nat -> Forall (fun m => 0 < m) μ ->
+  0 < p_Lgamma P -> 0 < p_Lmin P -> 0 < p_Lmax P ->
+  (forall j u x qr mask q, length (gn_step j u x qr mask q) = (dN d * dnu d)%nat) ->
+  (forall ds q γ J, length (snd (fst (lb_apply ds q γ J))) = (dN d * dnu d)%nat) ->
+  e2e_run f h hN l lN c cN jA jB gqr gqN jc jcN d Dlb Dub DNlb DNub x0 y μ DS gn_step lb_apply lb_update lb_reset
+          Ulb Uub stop_req time_up P u_in errz_in ds0 ls_fuel fuel = Done o ->
+  out_status o = StConverged ->
+  forall t i, (t < dN d)%nat -> (i < dnu d)%nat -> in_box (nth i Ulb None) (nth i Uub None) (nth (t * dnu d + i) (out_u o) 0).
+Proof. exact panoc_ocp_converged_inputs_in_U. Qed.
+Print Assumptions C13_panoc_ocp_converged_inputs_in_U.
+
+(* the characterisation determines the gradient: two vectors that both satisfy it for the same inputs are equal *)
+Theorem C13_cost_gradient_unique :
+  forall f h hN c cN jA jB gqr gqN jc jcN d Dlb Dub DNlb DNub x0 y μ (u g1 g2 : list R),
+  is_cost_gradient f h hN c cN jA jB gqr gqN jc jcN d Dlb Dub DNlb DNub x0 y μ u g1 ->
+  is_cost_gradient f h hN c cN jA jB gqr gqN jc jcN d Dlb Dub DNlb DNub x0 y μ u g2 -> g1 = g2.
+Proof. exact is_cost_gradient_unique. Qed.
+Print Assumptions C13_cost_gradient_unique.
+
+(* ... and that characterisation IS the directional derivative of the OCP cost V (sum of stage costs, terminal cost and penalty terms)
+   when the problem's functions are differentiable along curves with the derivatives the problem reports:
+     diff_f      s ↦ f_t(x(s), u(s)) has derivative A_t x'(0) + B_t u'(0)          (A_t = jA, B_t = jB at (x(0), u(0)))
+     diff_stage  s ↦ stage cost_t(x(s), u(s)) (l_t∘h_t + ½ dist²_μ of the shifted stage constraints) has derivative q_t·x'(0) + r_t·u'(0)
+     diff_term   s ↦ terminal cost(x(s)) has derivative q_N·x'(0)
+   for every pair of componentwise differentiable curves.  The chain rule over the horizon is PROVED (cost_sum_derive): for every
+   direction δ,  d/ds V(u + s·δ) at s = 0  equals  Σ_k <g_k, δ_k>  with g the blocks of the gradient. *)
+Theorem C13_cost_gradient_is_directional_derivative :
+  forall f h hN l lN c cN jA jB gqr gqN jc jcN d Dlb Dub DNlb DNub (x0 y μ : list R),
+  diff_f f jA jB d -> diff_stage f h l c jA jB gqr jc d Dlb Dub y μ -> diff_term hN lN cN gqN jcN d DNlb DNub y μ ->
+  length x0 = dnx d ->
+  forall u g : list R, length u = (dN d * dnu d)%nat ->
+  is_cost_gradient f h hN c cN jA jB gqr gqN jc jcN d Dlb Dub DNlb DNub x0 y μ u g ->
+  forall δ, length δ = (dN d * dnu d)%nat ->
+  exists gs, g = concat gs /\
+    is_derive (fun s => e_V f h hN l lN c cN d Dlb Dub DNlb DNub x0 y μ (vadd u (vscale s δ))) 0 (dots gs (e_stages d δ)).
+Proof. exact cost_gradient_is_directional_derivative. Qed.
+Print Assumptions C13_cost_gradient_is_directional_derivative.
+
+(* ---- non-vacuity of C13_panoc_ocp_converged_is_stationary: N = 1, nx = nu = 1, x1 = x0 + u, cost ½u² + ½x1², terminal constraint
+        x1 ∈ [-1, 2] with y = 0, μ = 1, U = [-1, 1], x0 = 0, initial guess u = 0 (the constrained minimiser): every hypothesis holds and
+        the run (Gauss-Newton mode, L_0 = L_max = 1) returns Converged at the first stop check *)
+Definition nvd : dims := {| dN := 1; dnx := 1; dnu := 1; dnh := 0; dnc := 0; dnhN := 0; dncN := 1 |}.
+Definition nv_f (t : nat) (x u : list R) : list R := [nth 0 x 0 + nth 0 u 0].
+Definition nv_l (t : nat) (z : list R) : R := / 2 * (nth 1 z 0 * nth 1 z 0).
+Definition nv_lN (x : list R) : R := / 2 * (nth 0 x 0 * nth 0 x 0).
+Definition nv_cN (x : list R) : list R := [nth 0 x 0].
+Definition nv_P2 : params (T:=R) := mkParams 5 10 1 (1/1000000) (1/1000000) (1/2) 1 1 ProjGradNorm 0 0 (1/2) (1/4) 1 true false true true (1/100).
+Notation nv_run2 := (e2e_run (T:=R) nv_f (fun _ _ _ => []) (fun _ => []) nv_l nv_lN (fun _ _ => []) nv_cN
+   (fun _ _ _ => [[1]]) (fun _ _ _ => [[1]]) (fun _ z _ => [0; nth 1 z 0]) (fun x _ => [nth 0 x 0]) (fun _ _ => []) (fun _ => [[1]])
+   nvd [] [] [Some (-1)] [Some 2] [0] [0] [1] unit
+   (fun _ _ _ _ _ q => match q with [a] => [a] | _ => [0] end) (fun ds q _ _ => (false, [0], ds)) (fun ds _ _ _ _ => (true, ds)) (fun ds => ds)
+   [Some (-1)] [Some 1] (fun _ => false) (fun _ => false) nv_P2 [0] [0] tt 1).
+Notation nvfwd := (e_fwd nv_f (fun _ _ _ => []) (fun _ => []) nv_l nv_lN (fun _ _ => []) nv_cN nvd [] [] [Some (-1)] [Some 2] [0] [0] [1]).
+Notation nvbwd := (e_bwd (fun _ _ _ => [[1]]) (fun _ _ _ => [[1]]) (fun _ z _ => [0; nth 1 z 0]) (fun x _ => [nth 0 x 0]) (fun _ _ => []) (fun _ => [[1]]) nvd [] [] [Some (-1)] [Some 2] [0] [1]).
+Lemma nv_grad0 : fst (nvbwd [0] (snd (nvfwd [0]))) = [0].
+Proof.
+  cbv -[Rplus Rmult Rle_bool Rlt_bool Req_bool Rdiv Rinv Ropp Rminus IZR Rabs sqrt].
+  f_equal. rbool; lra.
+Qed.
+Example C13_e2e_nonvacuous :
+  wf_fns nv_f (fun _ _ _ => []) (fun _ => []) (fun _ _ => []) nv_cN nvd /\
+  wf_jac (fun _ _ _ => [[1]]) (fun _ _ _ => [[1]]) (fun _ z _ => [0; nth 1 z 0]) (fun x _ => [nth 0 x 0]) (fun _ _ => []) (fun _ => [[1]]) nvd /\
+  Forall2 box_ne [Some (-1)] [Some 1] /\ Forall (fun m => 0 < m) [1] /\
+  0 < p_Lgamma nv_P2 /\ 0 < p_Lmin nv_P2 /\ 0 < p_Lmax nv_P2 /\
+  exists o, nv_run2 1%nat = Done o /\ out_status o = StConverged /\ out_iterations o = 0%nat.
+Proof.
+  split; [|split; [|split; [|split; [|split; [|split; [|split]]]]]].
+  - unfold wf_fns. cbn. repeat split; intros; try reflexivity; lia.
+  - unfold wf_jac, wfm. cbn. repeat split; intros; repeat constructor.
+  - repeat constructor. cbn. lra.
+  - repeat constructor. lra.
+  - cbn. lra.
+  - cbn. lra.
+  - cbn. lra.
+  - unfold e2e_run.
+    match goal with |- context [panoc_ocp _ _ _ ?a1 ?a2 ?a3 ?a4 ?a5 ?a6 ?a7 ?a8 ?a9 ?a10 ?a11 ?a12 ?a13 ?a14 ?a15 ?a16 ?a17 ?a18 ?a19 ?a20 ?a21 ?a22 ?a23 ?a24 _] =>
+      pose proof (run_converged_at_start (list R) (e_QR (T:=R)) unit a1 a2 a3 a4 a5 a6 a7 a8 a9 a10 a11 a12 a13 a14 a15 a16 a17 a18 a19 a20 a21 a22 a23 a24 0%nat) as Hrun;
+      pose proof (first_iterate_start (list R) (e_QR (T:=R)) a1 a2 a3 a9 a10 a11 a12 a17 a18 a22) as Hfi;
+      pose proof (eps_ProjGradNorm (list R) a9 a10 a11 a12 a17) as Heps
+    end.
+    assert (H0 : 0 < p_L0 nv_P2) by (cbn; lra).
+    specialize (Hfi H0). cbv zeta in Hfi. destruct Hfi as (_ & _ & _ & _ & Eip).
+    rewrite nv_grad0 in Eip.
+    destruct (Hrun _ H0 ltac:(cbn; lra) (Heps _ eq_refl)) as (o & Ho & Hs & Hk & _).
+    { rewrite Eip. cbv -[Rplus Rmult Rle_bool Rlt_bool Req_bool Rdiv Rinv Ropp Rminus IZR Rabs sqrt Rle]. rbool; try lra; split_Rabs; lra. }
+    exists o. split; [exact Ho|]. split; [exact Hs|exact Hk].
+Qed.
+
+(* ---- the differentiability hypotheses of C13_cost_gradient_is_directional_derivative are satisfiable: N = 2, x⁺ = x + u, cost Σ ½u² + ½x_N² *)
+Definition nvd2 : dims := {| dN := 2; dnx := 1; dnu := 1; dnh := 0; dnc := 0; dnhN := 0; dncN := 0 |}.
+
+Lemma vder1 (x : R -> list R) dx : vder 1 x dx -> exists a, dx = [a] /\ is_derive (fun s => nth 0 (x s) 0) 0 a /\ forall s, length (x s) = 1%nat.
+Proof.
+  intros (L & Ls & Hd). destruct dx as [|a [|? ?]]; try discriminate. exists a. split; [reflexivity|]. split; [exact (Hd 0%nat ltac:(lia))|exact Ls].
+Qed.
+
+Example C13_derivative_hypotheses_nonvacuous :
+  diff_f nv_f (fun _ _ _ => [[1]]) (fun _ _ _ => [[1]]) nvd2 /\
+  diff_stage nv_f (fun _ _ _ => []) nv_l (fun _ _ => []) (fun _ _ _ => [[1]]) (fun _ _ _ => [[1]]) (fun _ z _ => [0; nth 1 z 0]) (fun _ _ => []) nvd2 [] [] [] [] /\
+  diff_term (fun _ => []) nv_lN (fun _ => []) (fun x _ => [nth 0 x 0]) (fun _ => []) nvd2 [] [] [] [].
+Proof.
+  split; [|split].
+  - intros t x u dx du Hx Hu. destruct (vder1 x dx Hx) as (a & -> & Da & Lx). destruct (vder1 u du Hu) as (b & -> & Db & Lu).
+    split; [reflexivity|]. split; [reflexivity|]. intros [|i] Hi; [|cbn in Hi; lia].
+    cbn. apply (is_derive_ext (fun s => plus (nth 0 (x s) 0) (nth 0 (u s) 0))); [reflexivity|].
+    replace (1 * a + 0 + (1 * b + 0)) with (plus a b) by (unfold plus; cbn; ring).
+    now apply @is_derive_plus.
+  - intros t x u dx du Hx Hu. destruct (vder1 x dx Hx) as (a & -> & Da & Lx). destruct (vder1 u du Hu) as (b & -> & Db & Lu).
+    unfold stage_cost, stage_fwd, stage_lin, lin_of, q_of, nv_l. cbn.
+    apply (is_derive_ext (fun s => / 2 * (nth 0 (u s) 0 * nth 0 (u s) 0))).
+    + intros s. rewrite !app_nth2 by (rewrite Lx; lia). rewrite Lx. reflexivity.
+    + rewrite app_nth2 by (rewrite Lx; lia). rewrite Lx. cbn [Nat.sub].
+      set (U := fun s => nth 0 (u s) 0) in *. change (is_derive (fun s => / 2 * (U s * U s)) 0 (0 * a + 0 + (U 0 * b + 0))).
+      assert (EU : ex_derive (fun s => U s) 0) by (exists b; exact Db).
+      auto_derive; [repeat split; exact EU|]. change (fun x0 : R => U x0) with U. rewrite (is_derive_unique U 0 b Db). field.
+  - intros x dx Hx. destruct (vder1 x dx Hx) as (a & -> & Da & Lx).
+    unfold term_cost, term_fwd, term_q, qN_of, nv_lN. cbn.
+    set (X := fun s => nth 0 (x s) 0) in *. change (is_derive (fun s => / 2 * (X s * X s)) 0 (X 0 * a + 0)).
+    assert (EX : ex_derive (fun s => X s) 0) by (exists a; exact Da).
+    auto_derive; [repeat split; exact EX|]. change (fun x0 : R => X x0) with X. rewrite (is_derive_unique X 0 a Da). field.
 Qed.
